@@ -389,7 +389,55 @@ def run_acq(case):
     return r
 
 
-RUNNERS = {'tree': run_tree, 'schedule': run_schedule, 'acq': run_acq}
+@guarded('C11')
+def run_order(case):
+    """Two parameters with disjoint ranges and a surrogate whose parameter order is given by the user: the surrogate's
+    evidence rows are the simulated parameter pairs in the SURROGATE's column order, in consumption order, and every
+    acquired pair lies inside the bounds of its own parameter."""
+    import elfi
+    from elfi.methods.bo.acquisition import UniformAcquisition
+    from elfi.methods.bo.gpy_regression import GPyRegression
+    from .. import models
+    models.native_client()
+    with pin.pinned(0):
+        del SEEN[:]
+        m = elfi.ElfiModel(name='bo_m2')
+        a = elfi.Prior('uniform', 0, 2, model=m, name='a')
+        b = elfi.Prior('uniform', 10, 2, model=m, name='b')
+        Y = elfi.Simulator(sim2, a, b, model=m, name='Y', observed=np.array([12.0]))
+        elfi.Distance('euclidean', Y, model=m, name='d')
+        names = list(case['order'])
+        bounds = {'a': (0.0, 2.0), 'b': (10.0, 12.0)}
+        if case['gp'] == 'real':
+            tm = GPyRegression(names, bounds=bounds, max_opt_iters=5)
+            kw = {}
+        else:
+            tm = StubGP(names, bounds)
+            kw = {'acquisition_method': UniformAcquisition(tm, seed=3)}
+        bo = elfi.BayesianOptimization(m, 'd', target_model=tm, initial_evidence=case['init'], update_interval=100,
+                                       batch_size=case['bs'], bounds=bounds, seed=case['seed'], max_parallel_batches=1,
+                                       **kw)
+        bo.infer(n_evidence=case['n'], bar=False)
+        sims = np.vstack(SEEN) if SEEN else np.zeros((0, 2))        # columns (a, b), simulation order
+        del SEEN[:]
+    X = np.asarray(tm.X, dtype=float)
+    what = {'case': case}
+    col = {'a': 0, 'b': 1}
+    expected = sims[:, [col[n] for n in names]]
+    if bo.n_evidence != len(sims) or len(X) != len(sims):
+        return bad('C11:order:n-evidence-differs-from-simulated-rows', dict(what, n_evidence=int(bo.n_evidence), rows=len(X),
+                                                                           simulated=len(sims)))
+    if not np.array_equal(X, expected):
+        swapped = np.array_equal(X, expected[:, ::-1])
+        return bad('C11:order:evidence-is-not-the-simulated-parameters' + (':columns-permuted' if swapped else ''),
+                   dict(what, surrogate_order=names, X=X[:4].tolist(), simulated_in_surrogate_order=expected[:4].tolist()))
+    acq = sims[case['init']:]
+    if len(acq) and (np.any(acq[:, 0] < 0) or np.any(acq[:, 0] > 2) or np.any(acq[:, 1] < 10) or np.any(acq[:, 1] > 12)):
+        return bad('C11:order:acquired-point-outside-the-bounds-of-its-parameter', dict(what, acquired=acq[:4].tolist()))
+    return ok(outcome=digest((names, case['gp'], X)), order_runs=1)
+
+
+RUNNERS = {'tree': run_tree, 'schedule': run_schedule, 'acq': run_acq, 'order': run_order}
 
 
 def replay(case):
@@ -470,11 +518,17 @@ def run(ctx):
                                 acases.append(dict({k_: v_ for k_, v_ in acases[-1].items() if k_ != 'sampler'},
                                                    bdict='reversed'))
     ctx.run_cases(run_acq, acases, 'real-gp', chunksize=1, sample_every=max(1, len(acases) // 4))
+    # a surrogate handed in by the user with its own parameter order (two parameters with disjoint ranges)
+    ocases = [{'kind': 'order', 'order': order, 'gp': gp, 'bs': bs, 'init': init, 'n': n, 'seed': seed}
+              for order in (['a', 'b'], ['b', 'a']) for gp in ('stub', 'real') for bs in (1, 2) for init in (0, 2, 4)
+              for n in (6,) for seed in ((1,) if q else (1, 2, 3))
+              if not (gp == 'real' and (init == 0 or (q and bs == 2)))]
+    ctx.run_cases(run_order, ocases, 'parameter-order', chunksize=1)
     ctx.rule = ('schedule-trees: one case = the complete (pruned) schedule tree of a configuration (acquisition rule x '
                 'batch_size x batches_per_acquisition x initial-evidence form {0, count, precomputed dict} x update_interval x '
                 'max_parallel_batches); evaluations = executions; distinct_nontrivial = distinct client event logs; real-gp: '
                 'full product acquisition class x dimension x bounds x prior x noise setting x seed (2-D shifted bounds also with the bounds dict written in reversed order), acquire(n,t) for several '
-                'n and t, gradient grids')
+                'n and t, gradient grids; parameter-order: surrogate column order (a,b | b,a) x stub / real GP x batch_size x initial evidence on a two-parameter model with disjoint ranges')
     ctx.assumptions += [
         'schedule exploration uses a recording stub surrogate with the GPyRegression interface (real acquisition rules, '
         'real BayesianOptimization.iterate/update/prepare_new_batch); extract_result is not part of the loop',
